@@ -27,6 +27,7 @@ impl<'a, K> KvxIntersection<'a, K> { pub uninterp spec fn set(&self) -> Set<K>;
     #[verifier::external_body] pub fn count(self) -> (r: usize) ensures (r == 0) == (self.set() =~= Set::<K>::empty()) { unimplemented!() } }
 impl<K> BTreeSet<K> {
     #[verifier::external_body] pub fn is_empty(&self) -> (r: bool) ensures r == (self@ =~= Set::<K>::empty()) { unimplemented!() }
+    #[verifier::external_body] pub fn contains(&self, k: &K) -> (r: bool) ensures r == self@.contains(*k) { unimplemented!() }
     #[verifier::external_body] pub fn intersection<'a>(&'a self, o: &'a BTreeSet<K>) -> (r: KvxIntersection<'a, K>) ensures r.set() == self@.intersect(o@) { unimplemented!() }
 }
 // `slice.iter().flat_map(f).collect::<BTreeSet<_>>()` with f returning a fixed-size array: exactly the elements of the arrays f returns
